@@ -293,11 +293,11 @@ def report(scen, prop, tier, seed, jobs, results, cut, nat, known, ev_path, t_st
     for l in lines: print(l)
     print('%s %s: %d configurations, %d paths (%d non-trivial), %d obligations, %d discharged, %d violations (%d known), %.0f s, status %s' % (
         prop, tier, len(results), agg['paths'], agg['nontrivial'], agg['obligations'], agg['discharged'], nviol, nknown, wall, status))
-    if crashes:
-        print('CHECK-ERROR: worker crashed: ' + crashes[0]); return 2
     if mismatches:
         print('CHECK-ERROR: engine and native build disagree (machinery bug, not a finding): %s' % mismatches[:3]); return 2
-    if nviol: return 1
+    if crashes: print('CHECK-ERROR: worker crashed: ' + crashes[0])
+    if nviol: return 1           # (every reported violation was replayed natively; a worker lost elsewhere does not take it back)
+    if crashes: return 2
     if incon or cut:
         print('INCONCLUSIVE property=%s: %d undecided items, %d configurations cut by budget; first: %s' % (prop, len(incon), cut, incon[:1])); return 3
     return 0
